@@ -21,6 +21,7 @@
 package idle
 
 import (
+	"google.golang.org/grpc/internal/verifhook"
 	"math"
 	"sync"
 	"sync/atomic"
@@ -114,6 +115,7 @@ func (m *Manager) handleIdleTimeout() {
 		return
 	}
 
+	verifhook.Point("idle.timeout.afterCountCheck")
 	// There has been activity on the channel since we last got here. Reset the
 	// timer and return.
 	if atomic.LoadInt32(&m.activeSinceLastTimerCheck) == 1 {
@@ -124,6 +126,7 @@ func (m *Manager) handleIdleTimeout() {
 		return
 	}
 
+	verifhook.Point("idle.timeout.afterActivityCheck")
 	// Now that we've checked that there has been no activity, attempt to enter
 	// idle mode, which is very likely to succeed.
 	if m.tryEnterIdleMode(true) {
@@ -159,6 +162,7 @@ func (m *Manager) tryEnterIdleMode(checkActivity bool) bool {
 	}
 	// N.B. if we fail to enter idle mode after this, we must re-add
 	// math.MaxInt32 to m.activeCallsCount.
+	verifhook.Point("idle.tryEnter.afterCAS")
 
 	m.idleMu.Lock()
 	defer m.idleMu.Unlock()
@@ -196,6 +200,7 @@ func (m *Manager) OnCallBegin() {
 	}
 
 	if atomic.AddInt32(&m.activeCallsCount, 1) > 0 {
+		verifhook.Point("idle.begin.afterAddPositive")
 		// Channel is not idle now. Set the activity bit and allow the call.
 		atomic.StoreInt32(&m.activeSinceLastTimerCheck, 1)
 		return
@@ -203,6 +208,7 @@ func (m *Manager) OnCallBegin() {
 
 	// Channel is either in idle mode or is in the process of moving to idle
 	// mode. Attempt to exit idle mode to allow this RPC.
+	verifhook.Point("idle.begin.afterAddNegative")
 	m.ExitIdleMode()
 	atomic.StoreInt32(&m.activeSinceLastTimerCheck, 1)
 }
@@ -211,6 +217,7 @@ func (m *Manager) OnCallBegin() {
 // internal state.
 func (m *Manager) ExitIdleMode() {
 	// Holds idleMu which ensures mutual exclusion with tryEnterIdleMode.
+	verifhook.Point("idle.exit.beforeLock")
 	m.idleMu.Lock()
 	defer m.idleMu.Unlock()
 
@@ -262,6 +269,7 @@ func (m *Manager) OnCallEnd() {
 		return
 	}
 
+	verifhook.Point("idle.end.begin")
 	// Record the time at which the most recent call finished.
 	atomic.StoreInt64(&m.lastCallEndTime, time.Now().UnixNano())
 
@@ -269,6 +277,7 @@ func (m *Manager) OnCallEnd() {
 	// when the timer callback is in the process of moving the channel to idle
 	// mode, but one or more RPCs come in and complete before the timer callback
 	// can get done with the process of moving to idle mode.
+	verifhook.Point("idle.end.beforeDecr")
 	atomic.AddInt32(&m.activeCallsCount, -1)
 }
 
